@@ -55,7 +55,7 @@ def verify_functions(keys, *, prop=None, repo='/repo', scope=None, timeout_ms=10
                 out['obligations'][name] = dict(name=name, function=fkey, kind=ob.kind, serves=list(ob.serves), status=st,
                                                 finite=ob.status, unbounded=(u.status if u else 'missing'),
                                                 backend=(u.solver if u else ob.solver), time_s=round(ob.time_s + (u.time_s if u else 0), 4),
-                                                instances=ob.instances, model=ob.model if ob.status == 'refuted' else '',
+                                                instances=ob.instances, model=ob.model if ob.status == 'refuted' else '', via_loop=('[via-loop]' in (ob.detail or '')),
                                                 reason=(u.model if (u and u.status != 'discharged') else ''))
             for name, u in e2.obligations.items():
                 if name not in e1.obligations:
